@@ -1,1 +1,28 @@
 //! Verification hooks: misc (cargo feature `mmtk_verif`; add-only wrappers).
+
+/// C35 — native mark-sweep size classes and block geometry.
+pub mod msbins {
+    use crate::policy::marksweepspace::native_ms::Block;
+    use crate::util::linear_scan::Region;
+    use crate::util::Address;
+
+    /// Geometry of the native mark-sweep block that contains `addr`, as the allocator left it:
+    /// `(block start, cell size recorded for the block, cells on the block's free list in list order)`.
+    /// The free list is walked through the `next` word stored in every free cell, exactly as
+    /// `FreeListAllocator::block_alloc` does; at most `limit` cells are followed.
+    pub fn block_geometry(addr: Address, limit: usize) -> (usize, usize, Vec<usize>) {
+        let block = Block::from_unaligned_address(addr);
+        let mut cells = vec![];
+        let mut cell = block.load_free_list();
+        while !cell.is_zero() && cells.len() < limit {
+            cells.push(cell.as_usize());
+            cell = unsafe { cell.load::<Address>() };
+        }
+        (block.start().as_usize(), block.load_block_cell_size(), cells)
+    }
+
+    /// `MI_INTPTR_SIZE` as the size-class code sees it (bytes in an address).
+    pub fn intptr_size() -> usize {
+        1 << (crate::util::constants::LOG_BYTES_IN_ADDRESS as usize)
+    }
+}
